@@ -144,6 +144,7 @@ type DeclOpts struct {
 	OwnDataOnly bool // never address non-target context (C10)
 	Collide     bool // emphasise textually identical declarations at different positions, shared templates, xpath_dynamic
 	NoExternal  bool
+	Probe       bool // sprinkle the harness custom function verif_probe (a scheduler yield point) between fields
 }
 
 type declGen struct {
@@ -192,7 +193,10 @@ var jsScripts = []struct {
 // leaf generates a declaration that yields a scalar, evaluated at a node whose field xpaths are fs.
 func (g *declGen) leaf(fs []string, intField string) D {
 	pick := func() string { return fs[g.t.Intn("decl.field", len(fs))] }
-	w := []int{8, 3, 2, 2, 3, 2, 2, 1, 3, 2, 2}
+	w := []int{8, 3, 2, 2, 3, 2, 2, 1, 3, 2, 2, 0}
+	if g.o.Probe {
+		w[11] = 6
+	}
 	if g.o.NoJS {
 		w[8], w[9] = 0, 0
 	}
@@ -240,6 +244,8 @@ func (g *declGen) leaf(fs []string, intField string) D {
 		g.usesJS = true
 		src := g.t.Pick("decl.jsctx", "Object.keys(JSON.parse(_node)).length", "JSON.stringify(JSON.parse(_node))", "_node.length")
 		return cf("javascript_with_context", D{"const": src})
+	case 11:
+		return cf("verif_probe", D{"xpath": pick()})
 	default:
 		return D{"xpath": g.m.Ctx[g.t.Intn("decl.ctx", len(g.m.Ctx))]}
 	}
